@@ -205,7 +205,7 @@ def eval_case(kind, data):
         if w < (1e-10 if same_units else cut * 0.1) and len(lengths) > 1:
             continue
         targets = [(n - 0.5) * m for n, m in zip(lengths, masses)]
-        gm = R.GenModel(nspec, targets)
+        gm = R.GenModel(nspec, targets, max_steps=400)
         out = gm.run()
         res["extra"]["model_states"] = res["extra"].get("model_states", 0) + gm.states
         for c, (p, st_) in out.items():
